@@ -730,6 +730,66 @@ fn run_sat3<K: BoolKind>(ctx: &mut Ctx, order: &[u32]) {
         });
     }
 
+    // a domain pretended to be smaller than the support (documented: "the computation result is NaN to make
+    // the error obvious" when an inexact halving occurs): Natural only, plain and complement-edge BDDs
+    if K::BK != BKind::Zbdd {
+        ctx.group("natural: vars smaller than the number of variables", |ctx| {
+            let (_mref, fns) = all_functions::<K>(n, &order, 1024, TC1);
+            for (t, f) in fns.iter().enumerate() {
+                for v in 0..n {
+                    for ca in [false, true] {
+                        ctx.count("evaluations", 1);
+                        ctx.count("nontrivial", 1);
+                        // every node (sub-function reached by cofactoring along the order) stands for the number
+                        // 2^v * |g| / 2^n; the count is exact iff that is an integer for all of them
+                        let mut exact = true;
+                        let mut stack = vec![t as Tab];
+                        let mut seen = std::collections::BTreeSet::new();
+                        while let Some(g) = stack.pop() {
+                            if !seen.insert(g) {
+                                continue;
+                            }
+                            if ((g.count_ones() as u64) << v) % (1u64 << n) != 0 {
+                                exact = false;
+                            }
+                            if let Some(&x) = order.iter().find(|&&x| model::depends_on(g, x, n)) {
+                                stack.push(model::cofactor(g, x, true, n));
+                                stack.push(model::cofactor(g, x, false, n));
+                            }
+                        }
+                        let mut cache: Cache<Natural> = Cache::default();
+                        cache.cache_all = ca;
+                        let got = f.sat_count(v, &mut cache);
+                        let want: Option<u64> = if exact { Some(((t as Tab).count_ones() as u64) << v >> n) } else { None };
+                        // exact: the count; inexact: the documentation promises the error value for the shift that
+                        // loses a bit, what sums of error values are is not documented (recorded as outcome), but
+                        // whatever comes out must be the error value or a well-formed number
+                        let (ok, class) = match (want, read_nat(&got)) {
+                            (Some(w), Ok(Some(_))) => (u64::try_from(&got) == Ok(w), "wrong_value"),
+                            (Some(_), Ok(None)) => (false, "unexpected_nan"),
+                            (None, Ok(None)) => {
+                                ctx.outcome("smaller_domain_inexact:nan");
+                                (true, "")
+                            }
+                            (None, Ok(Some(_))) => {
+                                ctx.outcome("smaller_domain_inexact:some_number");
+                                (true, "")
+                            }
+                            (_, Err(_)) => (false, "malformed"),
+                        };
+                        if !ok {
+                            ctx.viol(
+                                attrs(&[("kind", K::NAME), ("op", "sat_count"), ("num", "natural"), ("history", "smaller_domain"), ("class", class)]),
+                                json!({"kind": K::NAME, "n": n, "order": env.order, "table": format!("{t:#x}"), "vars": v, "cache_all": ca, "expected": want.map(|w| w.to_string()).unwrap_or("NaN or a well-formed number".into()), "got": show_nat(&got)}),
+                                &format!("{} order {} sat_count::<natural>({t:#x}, vars={v}) = {}, expected {}", K::NAME, env.order, show_nat(&got), want.map(|w| w.to_string()).unwrap_or("the error value (or at least a well-formed number)".into())),
+                            );
+                        }
+                    }
+                }
+            }
+        });
+    }
+
     // drop + gc + creation of a different function that recycles the node ids
     let t1s: Vec<Tab> = (0..256).collect();
     for ca in [true, false] {
@@ -1565,6 +1625,12 @@ fn nat_shift(ctx: &mut Ctx) {
                     // recorded only: is NaN sticky under shifts?
                     let r4 = (r.clone() >> 5u32) << 3u32;
                     ctx.outcome(if r4.is_nan() { "nan_sticky_under_shift" } else { "nan_lost_under_shift" });
+                    // whatever it is, it must respect the documented representation
+                    for (what, x) in [("(NaN >> 5) << 3", r4), ("NaN >> 1", r.clone() >> 1u32), ("NaN >> 64", r.clone() >> 64u64)] {
+                        if let Err(e) = read_nat(&x) {
+                            ctx.viol(nat_attrs("shift_of_nan", "malformed"), json!({"op": what, "operand": a.name, "shl": s}), &format!("Natural {what} (NaN obtained from {} << {s}): {e}", a.name));
+                        }
+                    }
                 }
             }
         }
